@@ -16,20 +16,16 @@ Arguments N.land : simpl never.
 Open Scope N_scope.
 
 (* ---------- whitespace and comments ---------- *)
-Lemma is_ws_rust : forall c, is_ws c = true -> is_rust_ws c = true.
-Proof. intros c H. unfold is_ws in H. unfold is_rust_ws. lia. Qed.
+Lemma grammar_ws_is_ws : forall c, is_grammar_ws c = is_ws c.
+Proof. intros c. unfold is_grammar_ws, is_ws. lia. Qed.
 
-Lemma clean_strip : forall s ic, extra_ws ic s = false -> clean_st ic s = strip_ws_comments ic s.
+Lemma clean_strip : forall s ic, clean_st ic s = strip_ws_comments ic s.
 Proof.
-  induction s as [|c r IH]; intros ic H; [reflexivity|].
-  cbn [extra_ws clean_st strip_ws_comments] in *.
+  induction s as [|c r IH]; intros ic; [reflexivity|].
+  cbn [clean_st strip_ws_comments]. rewrite grammar_ws_is_ws.
   destruct ic.
-  - destruct (c =? 10); cbn [negb] in *; apply IH; exact H.
-  - destruct (c =? 59); [apply IH; exact H|].
-    apply orb_false_elim in H. destruct H as [Hc Hr].
-    destruct (is_ws c) eqn:Ew.
-    + rewrite (is_ws_rust c Ew). apply IH. exact Hr.
-    + cbn [negb] in Hc. rewrite andb_true_r in Hc. rewrite Hc. f_equal. apply IH. exact Hr.
+  - destruct (c =? 10); cbn [negb]; apply IH.
+  - destruct (c =? 59); [apply IH|]. destruct (is_ws c); [apply IH | f_equal; apply IH].
 Qed.
 
 (* ---------- base16 ---------- *)
@@ -134,23 +130,19 @@ Proof.
   - apply (quoted_between 1 _ r); [reflexivity | exact Hq].
 Qed.
 
-(* b16_ok, provable part *)
-Theorem b16_ok_partial : forall tok, bytes_b16_spelling tok = true ->
-  extra_ws false (b16_content tok) = false -> bytes_b16_model tok = b16_lit tok.
+(* b16_ok *)
+Theorem b16_ok : forall tok, bytes_b16_spelling tok = true -> bytes_b16_model tok = b16_lit tok.
 Proof.
-  intros tok Hg Hx. destruct (b16_token tok Hg) as [Ho Hb].
+  intros tok Hg. destruct (b16_token tok Hg) as [Ho Hb].
   unfold b16_lit, bytes_b16_model, clean_prefixed_byte_string. rewrite Ho, Hb. cbn [obind].
-  unfold b16_content in Hx. rewrite (clean_strip _ _ Hx). apply hex_decode_base16.
+  rewrite clean_strip. apply hex_decode_base16.
 Qed.
 
-(* b16_ok, the full statement, is FALSE of the faithful model: h'12<U+00A0>34' is accepted as 0x12 0x34 *)
-Theorem b16_ok_refuted : exists tok,
-  bytes_b16_spelling tok = true /\ b16_lit tok = None /\ bytes_b16_model tok = Some [18; 52].
-Proof. exists [104; 39; 49; 50; 160; 51; 52; 39]. vm_compute. auto. Qed.
-
-Example b16_example :     (* h'0a ;c<LF> fF' *)
+Example b16_example :     (* h'0a ;c<LF> fF' ; h'12<U+00A0>34' is rejected (kf-c07-bytes-nongrammar-ws, fixed) *)
   bytes_b16_spelling [104;39;48;97;32;59;99;10;32;102;70;39] = true
-  /\ b16_lit [104;39;48;97;32;59;99;10;32;102;70;39] = Some [10; 255].
+  /\ b16_lit [104;39;48;97;32;59;99;10;32;102;70;39] = Some [10; 255]
+  /\ bytes_b16_spelling [104; 39; 49; 50; 160; 51; 52; 39] = true
+  /\ bytes_b16_model [104; 39; 49; 50; 160; 51; 52; 39] = None.
 Proof. vm_compute. auto. Qed.
 
 (* ---------- bit arithmetic of one base64 block ---------- *)
@@ -490,6 +482,27 @@ Proof.
 Qed.
 
 (* ---------- shape of a literal without inner padding: data followed by k '=' ---------- *)
+(* a '=' that is followed by a character other than '=' *)
+Fixpoint inner_pad (s : list N) : bool :=
+  match s with
+  | a :: (b :: _) as r => ((a =? 61) && negb (b =? 61)) || inner_pad r
+  | _ => false
+  end.
+
+(* base64_decode without the padding-position check of 951a310 *)
+Definition decode_nopadcheck (s : list N) : option (list N) :=
+  if negb (all_ascii s) then None else
+  let uses_classic := contains 43 s || contains 47 s in
+  let uses_url := contains 45 s || contains 95 s in
+  if uses_classic && uses_url then None
+  else
+    match uses_classic, contains 61 s with
+    | true, true => decode_pad (b64_value false) s
+    | true, false => decode_base (b64_value false) s
+    | false, true => decode_pad (b64_value true) s
+    | false, false => decode_base (b64_value true) s
+    end.
+
 Lemma inner_pad_split : forall s, inner_pad s = false ->
   exists data k, s = data ++ repeat 61 k /\ no61 data = true.
 Proof.
@@ -591,12 +604,12 @@ Proof.
   rewrite (N.eqb_sym a 43), (N.eqb_sym a 47), (N.eqb_sym a 45), (N.eqb_sym a 95), A1, A2, A3, A4. reflexivity.
 Qed.
 
-(* the decoder of the crate = RFC 4648 under either alphabet, for literals without inner padding *)
-Theorem base64_decode_either : forall s, inner_pad s = false -> base64_decode s = base64_either s.
+(* alphabet detection + data_encoding = RFC 4648 under either alphabet, for literals without inner padding *)
+Lemma decode_nopadcheck_either : forall s, inner_pad s = false -> decode_nopadcheck s = base64_either s.
 Proof.
   intros s Hip. destruct (inner_pad_split s Hip) as [data [k [-> Hn]]].
   unfold base64_either. rewrite !(base64_with_shape _ data k Hn).
-  unfold base64_decode. rewrite all_ascii_app_pads, !contains_app_pads by discriminate. rewrite (contains_61 data k Hn).
+  unfold decode_nopadcheck. rewrite all_ascii_app_pads, !contains_app_pads by discriminate. rewrite (contains_61 data k Hn).
   set (cond := (k =? 0)%nat || ((length data + k) mod 4 =? 0)%nat && (k <=? 2)%nat).
   (* what the chosen decoder computes *)
   assert (Hdec : forall url,
@@ -646,32 +659,103 @@ Proof.
     destruct (negb (k =? 0)%nat); rewrite Hdec; exact Hgoal.
 Qed.
 
-(* b64_ok, provable part *)
-Theorem b64_ok_partial : forall tok, bytes_b64_spelling tok = true ->
-  extra_ws false (b64_content tok) = false ->
-  inner_pad (strip_ws_comments false (b64_content tok)) = false ->
-  bytes_b64_model tok = b64_lit tok.
+(* ---------- the padding-position check ---------- *)
+Lemma existsb_nonpad : forall r,
+  existsb (fun b => negb (b =? 61)) r = match r with [] => false | b :: _ => negb (b =? 61) || inner_pad r end.
 Proof.
-  intros tok Hg Hx Hip. destruct (b64_token tok Hg) as [Ho Hb].
-  unfold b64_lit, bytes_b64_model, clean_prefixed_byte_string. rewrite Ho, Hb. cbn [obind].
-  unfold b64_content in *. rewrite (clean_strip _ _ Hx). apply base64_decode_either. exact Hip.
+  induction r as [|b r IH]; [reflexivity|].
+  cbn [existsb]. rewrite IH. destruct r as [|c r']; [cbn [inner_pad]; reflexivity|].
+  change (inner_pad (b :: c :: r')) with (((b =? 61) && negb (c =? 61)) || inner_pad (c :: r')).
+  destruct (b =? 61); cbn [negb orb andb]; reflexivity.
 Qed.
 
-(* b64_ok, the full statement, is FALSE of the faithful model in two ways *)
-Theorem b64_ok_refuted_ws : exists tok,        (* b64'YQ<U+00A0>==' *)
-  bytes_b64_spelling tok = true /\ b64_lit tok = None /\ bytes_b64_model tok = Some [97].
-Proof. exists [98; 54; 52; 39; 89; 81; 160; 61; 61; 39]. vm_compute. auto. Qed.
+Lemma pad_not_at_end_inner : forall s, pad_not_at_end s = inner_pad s.
+Proof.
+  unfold pad_not_at_end. induction s as [|a r IH]; [reflexivity|].
+  cbn [from_first_pad]. destruct (a =? 61) eqn:Ea.
+  - rewrite existsb_nonpad. rewrite Ea. reflexivity.
+  - rewrite IH. destruct r as [|b r']; [reflexivity|].
+    change (inner_pad (a :: b :: r')) with (((a =? 61) && negb (b =? 61)) || inner_pad (b :: r')).
+    rewrite Ea. reflexivity.
+Qed.
 
-Theorem b64_ok_refuted_inner_pad : exists tok, (* b64'YQ==YQ==' : padding in the middle is accepted *)
-  bytes_b64_spelling tok = true /\ b64_lit tok = None /\ bytes_b64_model tok = Some [97; 97].
-Proof. exists [98; 54; 52; 39; 89; 81; 61; 61; 89; 81; 61; 61; 39]. vm_compute. auto. Qed.
+Lemma base64_decode_split : forall s,
+  base64_decode s = if pad_not_at_end s then None else decode_nopadcheck s.
+Proof.
+  intros s. unfold base64_decode, decode_nopadcheck.
+  destruct (negb (all_ascii s)); [destruct (pad_not_at_end s); reflexivity|].
+  destruct ((contains 43 s || contains 47 s) && (contains 45 s || contains 95 s)); destruct (pad_not_at_end s); reflexivity.
+Qed.
+
+Lemma inner_pad_repeat : forall k, inner_pad (repeat 61 k) = false.
+Proof.
+  induction k as [|k IH]; [reflexivity|]. cbn [repeat]. destruct k as [|k]; [reflexivity|].
+  cbn [repeat] in *. change (inner_pad (61 :: 61 :: repeat 61 k)) with (((61 =? 61) && negb (61 =? 61)) || inner_pad (61 :: repeat 61 k)).
+  rewrite IH. reflexivity.
+Qed.
+
+Lemma inner_pad_app_pads : forall data k, no61 data = true -> inner_pad (data ++ repeat 61 k) = false.
+Proof.
+  induction data as [|a d IH]; intros k Hn; [apply inner_pad_repeat|].
+  unfold no61 in Hn. cbn [forallb] in Hn. apply andb_prop in Hn. destruct Hn as [Ha Hd].
+  cbn [app]. destruct (d ++ repeat 61 k) as [|b l] eqn:E; [reflexivity|].
+  change (inner_pad (a :: b :: l)) with (((a =? 61) && negb (b =? 61)) || inner_pad (b :: l)).
+  destruct (a =? 61); [discriminate|]. cbn [andb orb]. rewrite <- E. apply IH. exact Hd.
+Qed.
+
+Lemma strip_pad_rev_decomp : forall rs n t m, strip_pad_rev rs n = (t, m) ->
+  exists k, rs = repeat 61 k ++ t /\ (forall c t', t = c :: t' -> (c =? 61) = false).
+Proof.
+  induction rs as [|c r IH]; intros n t m H; cbn [strip_pad_rev] in H.
+  - inversion H; subst. exists O. split; [reflexivity | intros; discriminate].
+  - destruct (c =? 61) eqn:Ec.
+    + destruct (IH _ _ _ H) as [k [E Ht]]. exists (S k). apply N.eqb_eq in Ec. subst c r. auto.
+    + inversion H; subst. exists O. split; [reflexivity|]. intros c' t' E. inversion E; subst. exact Ec.
+Qed.
+
+Lemma inner_pad_with_none : forall alphabet s, index_of 61 alphabet = None -> inner_pad s = true ->
+  base64_with alphabet s = None.
+Proof.
+  intros alphabet s H61 Hip. unfold base64_with.
+  destruct (strip_pad_rev (rev s) 0) as [rdata npad] eqn:E.
+  destruct (strip_pad_rev_decomp _ _ _ _ E) as [k [Hs Hhd]].
+  assert (Hbad : base64_groups alphabet (rev rdata) = None).
+  { apply groups_bad. destruct (no61 (rev rdata)) eqn:Hn.
+    - exfalso. assert (Hs' : s = rev rdata ++ repeat 61 k).
+      { rewrite <- (rev_involutive s), Hs, rev_app_distr, rev_repeat. reflexivity. }
+      rewrite Hs', (inner_pad_app_pads _ k Hn) in Hip. discriminate.
+    - unfold no61 in Hn. clear -Hn H61. induction (rev rdata) as [|a d IH]; [discriminate|].
+      cbn [forallb existsb] in *. destruct (a =? 61) eqn:Ea.
+      + apply N.eqb_eq in Ea. subst a. unfold not_in. rewrite H61. reflexivity.
+      + cbn [negb andb] in Hn. rewrite (IH Hn). apply orb_true_r. }
+  rewrite Hbad. destruct ((npad =? 0)%nat || ((length (rev rdata) + npad) mod 4 =? 0)%nat && (npad <=? 2)%nat); reflexivity.
+Qed.
+
+(* the decoder of the crate = RFC 4648 under either alphabet, on EVERY input *)
+Theorem base64_decode_either : forall s, base64_decode s = base64_either s.
+Proof.
+  intros s. rewrite base64_decode_split, pad_not_at_end_inner.
+  destruct (inner_pad s) eqn:Hip.
+  - unfold base64_either. rewrite !inner_pad_with_none by (reflexivity || exact Hip). reflexivity.
+  - apply decode_nopadcheck_either. exact Hip.
+Qed.
+
+(* b64_ok *)
+Theorem b64_ok : forall tok, bytes_b64_spelling tok = true -> bytes_b64_model tok = b64_lit tok.
+Proof.
+  intros tok Hg. destruct (b64_token tok Hg) as [Ho Hb].
+  unfold b64_lit, bytes_b64_model, clean_prefixed_byte_string. rewrite Ho, Hb. cbn [obind].
+  rewrite clean_strip. apply base64_decode_either.
+Qed.
 
 Example b64_example :    (* b64'-_8 ;c<LF> =' under base64url, b64'+/8=' under base64: the same three/two bytes *)
   b64_lit [98;54;52;39; 45;95;56;32;59;99;10;32;61; 39] = Some [251; 255]
   /\ b64_lit [98;54;52;39; 43;47;56;61; 39] = Some [251; 255]
   /\ b64_lit [98;54;52;39; 43;95;56;61; 39] = None          (* mixed alphabets *)
-  /\ b64_lit [98;54;52;39; 89;82;61;61; 39] = None.         (* YR== : non-zero trailing bits *)
-Proof. vm_compute. auto. Qed.
+  /\ b64_lit [98;54;52;39; 89;82;61;61; 39] = None          (* YR== : non-zero trailing bits *)
+  /\ bytes_b64_model [98; 54; 52; 39; 89; 81; 61; 61; 89; 81; 61; 61; 39] = None   (* YQ==YQ== : kf-c07-b64-inner-padding, fixed *)
+  /\ bytes_b64_model [98; 54; 52; 39; 89; 81; 160; 61; 61; 39] = None.             (* YQ<U+00A0>== *)
+Proof. vm_compute. repeat split; reflexivity. Qed.
 
 (* ---------- unprefixed byte strings ---------- *)
 Lemma denote_no_backslash : forall q s, existsb (N.eqb 92) s = false -> forallb (fun c => negb (c =? q)) s = true ->
@@ -775,6 +859,12 @@ Proof.
   { unfold all_ascii. clear -Hc. induction (base64_encode BASE64URL bs) as [|a r IH]; [reflexivity|].
     cbn [forallb] in *. apply andb_prop in Hc. destruct Hc as [Ha Hr]. rewrite (IH Hr). unfold url_char_ok in Ha. lia. }
   rewrite Hasc. cbn [negb].
+  assert (Hp : pad_not_at_end (base64_encode BASE64URL bs) = false).
+  { unfold pad_not_at_end. pose proof (forallb_imp_contains url_char_ok 61 _ Hc eq_refl) as H61.
+    clear -H61. unfold contains in H61. induction (base64_encode BASE64URL bs) as [|a r IH]; [reflexivity|].
+    cbn [existsb from_first_pad] in *. apply orb_false_elim in H61. destruct H61 as [Ha Hr].
+    rewrite N.eqb_sym, Ha. apply IH. exact Hr. }
+  rewrite Hp.
   rewrite (forallb_imp_contains url_char_ok 43 _ Hc eq_refl), (forallb_imp_contains url_char_ok 47 _ Hc eq_refl),
           (forallb_imp_contains url_char_ok 61 _ Hc eq_refl). cbn [orb andb].
   rewrite (decode_base_groups _ _ (b64_value_index true) (b64_value_lt true)). apply (groups_encode true bs Hw).
